@@ -8,8 +8,20 @@
    None, 0, 1, (0, 1); both_spellings = [(0, 1); [0, 1]; (1, 0)]. *)
 From Coq Require Import List Arith Bool ZArith Reals QArith.
 From PA Require Import base.Arr base.Px base.QClose model.Symmetry model.SymmetryQ
-  proofs.SymmetryProofs proofs.C06R.
+  proofs.SymmetryProofs proofs.C06R gen.SymmetryGen proofs.SymmetryGenEq.
 Import ListNotations.
+
+(* The model the theorems below are about is the function the current source
+   defines: gen/SymmetryGen.v is regenerated from abel/tools/symmetry.py by
+   tools/translate/symmetry_src.py on every run. *)
+Theorem C06_model_is_source :
+  (forall (A : Type) (zero : A) (add : A -> A -> A) (divn : A -> nat -> A)
+          (IM : list (list A)) (reorient : bool) (a : axis) (u : mask) (meth : smethod),
+     @get_quadrants_gen A zero add divn IM reorient a u meth = get_quadrants zero add divn IM reorient a u meth) /\
+  (forall (A : Type) (Q : quads A) (n m : nat) (a : axis),
+     @put_quadrants_gen A Q n m a = put_quadrants Q n m a).
+Proof. exact (conj get_gen_eq put_gen_eq). Qed.
+Print Assumptions C06_model_is_source.
 
 (* Splitting any image (every shape, every parity) into quadrants and
    reassembling returns the image exactly. *)
